@@ -32,6 +32,7 @@ const (
 	IdResObj2           // result object with two fields of type S: (S, nil) and (S, "k1")
 	IdMultiNamed        // multi-return + Name: (S, "k1") and (A, nil)
 	IdMultiGroup        // multi-return + Group: members of (S, "g1") and (A, "g1")
+	IdResObjGroup2      // result object: two members of (S, "g1") and (A, nil)  [registry harness only]
 	NumIdForms
 )
 
@@ -88,6 +89,8 @@ func (w *World) Ctor(r int) (any, []godi.AddOption) {
 		return TabR[r][g.Variant], nil
 	case IdResObj2:
 		return TabB[r][g.Variant], nil
+	case IdResObjGroup2:
+		return TabG[r][g.Variant], nil
 	case IdMultiNamed:
 		return TabM[r][g.Variant], append(opts, godi.Name("k1"))
 	case IdMultiGroup:
@@ -172,6 +175,8 @@ func (w *World) Identities(r int) []Ident {
 		return []Ident{{Type: r}, {Type: NS + r, Key: "k1"}}
 	case IdResObj2:
 		return []Ident{{Type: r}, {Type: r, Key: "k1"}}
+	case IdResObjGroup2:
+		return []Ident{{Type: r, Group: "g1"}, {Type: r, Group: "g1"}, {Type: NS + r}}
 	case IdMultiNamed:
 		return []Ident{{Type: r, Key: "k1"}, {Type: NS + r}}
 	case IdMultiGroup:
